@@ -131,6 +131,8 @@ def _expr_cases(tier):
     digits = [4, 6] if quick else [4, 5, 6]
     idx = 0
     plan = [(1, CE, False), (3, CE, False), (5, CE_SMALL if quick else CE, quick)]
+    if quick:
+        plan.append((5, ["0", "1"], False))  # vanishing and neutral terms (0 / x, x * 0, x - 0, x / 1 ...) at every position
     if not quick:
         plan.append((7, CE_TINY, True))
     for n, consts, ordered in plan:
